@@ -46,6 +46,7 @@ REQS = {
     'C': lambda i: dict(kind='req', fc=15, address=1, count=3, byte_count=1, bits=[True, False, True]),
     'R': lambda i: dict(kind='req', fc=3, address=1, count=2),
     'M': lambda i: dict(kind='req', fc=22, address=3, and_mask=0x00FF, or_mask=0x5500),
+    'X': lambda i: b'\x41\x00',          # a function code no server implements: answered (01) only where a reply is due at all
     # writes covering a whole table of the layout (8 cells from address 0): one value list reaches every unit of a broadcast
     'F': lambda i: dict(kind='req', fc=16, address=0, count=8, byte_count=16, registers=[0x0F00 + 16 * i + j for j in range(8)]),
     'G': lambda i: dict(kind='req', fc=15, address=0, count=8, byte_count=1, bits=[True, False, False, True, True, False, True, False]),
@@ -267,7 +268,7 @@ def run_one(acc, front, framing, hosted, bc, ign, steps, record=True):
         m = REQS[kind](i)
         del log[:]
         before = scenario.dumps(real)
-        alts = ref.handle(unit, m)
+        alts = ref.handle(unit, scenario.as_msg(m))
         writes = conn.run_script([scenario.frame(framing, unit, 0x0100 + i, m)])
         got = scenario.parse_out(framing, writes)
         after = scenario.dumps(real)
@@ -332,7 +333,7 @@ def shard(args):
                 continue                   # Twisted offers no broadcast option
             for ign in (False, True):
                 for u in units:
-                    for kind in ('W', 'C', 'R', 'M'):
+                    for kind in ('W', 'C', 'R', 'M', 'X'):
                         run_one(acc, front, framing, hosted, bc, ign, [(u, kind)])
                         n += 1
                 for fail_unit in ([0] if hosted is None else list(hosted)):
